@@ -1,9 +1,9 @@
 /-
   Machinery for closed witnesses: `build` calls `parseContentGo`, which is defined by
-  well-founded recursion and therefore does not reduce under `decide`.  `buildE` is `build`
-  with the attribute step short-cut for EMPTY attribute values (no call to `parseContentGo`);
-  `build_eq_buildE` proves the two equal on every input, so a closed witness whose attribute
-  values are empty and which has no text token can be evaluated by the kernel.
+  well-founded recursion and therefore does not reduce under `decide`.  `parseContentFuel` is the
+  same loop by structural recursion on a fuel argument, `buildE` is `build` with every call of
+  `parseContentGo` replaced by it; `build_eq_buildE` proves the two equal on every input, so a
+  closed witness can be evaluated by the kernel (`decide +kernel`).
   Observables of a `BuildResult` used by the witnesses are projected to decidable data.
 -/
 import XotModel.Model.Parse
@@ -12,37 +12,176 @@ import XotModel.Lemmas.ParseContent
 
 namespace XotModel
 
-/-- `Builder.attribute` on an empty value, without going through `parseContentGo`. -/
-def Builder.attributeEmpty (b : Builder) (pfx loc : StrSpan) (start : Nat) : Step Builder :=
+/-- `parseContentGo` by structural recursion on `fuel`. -/
+def parseContentFuel (attr : Bool) (base : Nat) : Nat → Nat → Str → Except ContentErr Str
+  | 0, _, _ => .ok []
+  | _ + 1, _, [] => .ok []
+  | fuel + 1, pos, c :: rest =>
+    if c = '\r' then
+      consOk (if attr then ' ' else '\n')
+        (parseContentFuel attr base fuel (pos + 1 + (rest.length - (skipLf rest).length)) (skipLf rest))
+    else if c = '&' then
+      match splitSemi rest with
+      | none => .error (.unclosed rest (base + pos))
+      | some (ent, rest') =>
+        match decodeEntity ent with
+        | none => .error (.invalid (entityErrText ent) (base + pos) (base + (pos + 1 + strLen ent + 1)))
+        | some ch => consOk ch (parseContentFuel attr base fuel (pos + 1 + strLen ent + 1) rest')
+    else if attr && (c = '\t' || c = '\n') then
+      consOk ' ' (parseContentFuel attr base fuel (pos + utf8Len c) rest)
+    else
+      consOk c (parseContentFuel attr base fuel (pos + utf8Len c) rest)
+
+theorem parseGo_amp (attr : Bool) (base pos : Nat) (rest : Str) :
+    parseContentGo attr base pos ('&' :: rest) =
+      (match splitSemi rest with
+       | none => .error (.unclosed rest (base + pos))
+       | some (ent, rest') =>
+         match decodeEntity ent with
+         | none => .error (.invalid (entityErrText ent) (base + pos) (base + (pos + 1 + strLen ent + 1)))
+         | some ch => consOk ch (parseContentGo attr base (pos + 1 + strLen ent + 1) rest')) := by
+  rw [parseContentGo.eq_def]
+  have h1 : ('&' : Char) ≠ '\r' := by decide
+  simp only [h1, if_false, if_true]
+  split
+  · rename_i hnone; rw [hnone]
+  · rename_i ent rest' hsome
+    rw [hsome]
+    simp only
+    cases decodeEntity ent <;> rfl
+
+theorem parseContentFuel_eq (attr : Bool) (base : Nat) : ∀ (fuel pos : Nat) (s : Str), s.length < fuel →
+    parseContentFuel attr base fuel pos s = parseContentGo attr base pos s := by
+  intro fuel
+  induction fuel with
+  | zero => intro pos s h; omega
+  | succ fuel ih =>
+    intro pos s hs
+    cases s with
+    | nil => rw [parseGo_nil]; rfl
+    | cons c rest =>
+      simp only [List.length_cons] at hs
+      simp only [parseContentFuel]
+      by_cases h1 : c = '\r'
+      · subst h1
+        simp only [if_true]
+        rw [parseGo_cr, ih _ _ (by have := skipLf_length rest; omega)]
+      · simp only [h1, if_false]
+        by_cases h2 : c = '&'
+        · subst h2
+          simp only [if_true]
+          rw [parseGo_amp]
+          cases hsp : splitSemi rest with
+          | none => rfl
+          | some p =>
+            obtain ⟨ent, rest'⟩ := p
+            simp only
+            cases decodeEntity ent with
+            | none => rfl
+            | some ch =>
+              simp only
+              rw [ih _ _ (by have := splitSemi_length hsp; omega)]
+        · simp only [h2, if_false]
+          by_cases h3 : attr = true ∧ (c = '\t' ∨ c = '\n')
+          · obtain ⟨ha, hc⟩ := h3
+            subst ha
+            have : (true && (decide (c = '\t') || decide (c = '\n'))) = true := by
+              rcases hc with h | h <;> subst h <;> decide
+            simp only [this, if_true]
+            rw [parseGo_attr_ws base pos c rest hc, ih _ _ (by omega)]
+          · have hplain : plainFor attr c = true := by
+              simp only [plainFor, Bool.and_eq_true, bne_iff_ne, ne_eq, Bool.not_eq_true', Bool.and_eq_false_iff,
+                Bool.or_eq_false_iff, beq_eq_false_iff_ne]
+              refine ⟨⟨h1, h2⟩, ?_⟩
+              by_cases ha : attr = true
+              · right
+                exact ⟨fun h => h3 ⟨ha, Or.inl h⟩, fun h => h3 ⟨ha, Or.inr h⟩⟩
+              · left; simpa using ha
+            have : (attr && (decide (c = '\t') || decide (c = '\n'))) = false := by
+              cases attr with
+              | false => rfl
+              | true =>
+                simp only [Bool.true_and, Bool.or_eq_false_iff, decide_eq_false_iff_not]
+                exact ⟨fun h => h3 ⟨rfl, Or.inl h⟩, fun h => h3 ⟨rfl, Or.inr h⟩⟩
+            simp only [this, Bool.false_eq_true, if_false]
+            rw [parseGo_plain attr base pos c rest hplain, ih _ _ (by omega)]
+
+/-- `parse_content(content, attribute, base_position)` in kernel-evaluable form. -/
+def parseContentE (attr : Bool) (base : Nat) (s : Str) : Except ContentErr Str :=
+  parseContentFuel attr base (s.length + 1) 0 s
+
+theorem parseContentE_eq (attr : Bool) (base : Nat) (s : Str) :
+    parseContentE attr base s = parseContentGo attr base 0 s :=
+  parseContentFuel_eq attr base _ 0 s (by omega)
+
+/-- `Builder.prefix` / `attribute` / `text` with `parseContentE`. -/
+def Builder.prefixE (b : Builder) (pfx : Str) (uri : StrSpan) (nameSpan : Span) : Step Builder :=
+  match parseContentE true uri.start uri.text with
+  | .error e => .err (ParseErr.ofContent e) b.env
+  | .ok u =>
+    let r1 := b.env.internPrefix pfx
+    let r2 := r1.1.internNamespace u
+    match b.eb with
+    | none => .panic
+    | some eb =>
+      if eb.namespaces.any (fun d => d.1 == r1.2) then
+        .err (.duplicateAttribute (declDisplayName pfx) nameSpan) r2.1
+      else
+        .ok { b with env := r2.1, eb := some { eb with namespaces := eb.namespaces ++ [(r1.2, r2.2)] } }
+
+def Builder.attributeE (b : Builder) (pfx loc value : StrSpan) : Step Builder :=
   match b.eb with
   | none => .panic
   | some eb =>
     if eb.attributes.any (fun ab => ab.pfx == pfx.text && ab.name == loc.text) then
       .err (.duplicateAttribute (attrDisplayName pfx.text loc.text) (Span.fromPrefixName pfx loc)) b.env
     else
-      let ab : AttributeBuilder :=
-        { pfx := pfx.text, name := loc.text, value := [],
-          nameSpan := Span.fromPrefixName pfx loc, valueSpan := ⟨start, start⟩, prefixSpan := pfx.span }
-      .ok { b with eb := some { eb with attributes := eb.attributes ++ [ab] } }
+      match parseContentE true value.start value.text with
+      | .error e => .err (ParseErr.ofContent e) b.env
+      | .ok v =>
+        let v' := if loc.text == ['i', 'd'] && pfx.text == ['x', 'm', 'l'] then normalizeXmlId v else v
+        let ab : AttributeBuilder :=
+          { pfx := pfx.text, name := loc.text, value := v',
+            nameSpan := Span.fromPrefixName pfx loc, valueSpan := value.span, prefixSpan := pfx.span }
+        .ok { b with eb := some { eb with attributes := eb.attributes ++ [ab] } }
 
-theorem attribute_empty (b : Builder) (pfx loc : StrSpan) (start : Nat) :
-    b.attribute pfx loc ⟨[], start⟩ = b.attributeEmpty pfx loc start := by
-  unfold Builder.attribute Builder.attributeEmpty
-  simp only [parseGo_nil]
+def Builder.textE (b : Builder) (t : StrSpan) : Step Builder :=
+  match parseContentE false t.start t.text with
+  | .error e => .err (ParseErr.ofContent e) b.env
+  | .ok content =>
+    let r := b.addText content
+    .ok { r.1 with spans := r.1.spans.extendText r.2 t.span }
+
+theorem prefixE_eq (b : Builder) (pfx : Str) (uri : StrSpan) (sp : Span) :
+    b.prefixE pfx uri sp = b.prefix pfx uri sp := by
+  unfold Builder.prefixE Builder.prefix
+  rw [parseContentE_eq]
+  cases parseContentGo true uri.start 0 uri.text <;> rfl
+
+theorem attributeE_eq (b : Builder) (pfx loc value : StrSpan) :
+    b.attributeE pfx loc value = b.attribute pfx loc value := by
+  unfold Builder.attributeE Builder.attribute
+  rw [parseContentE_eq]
   cases b.eb with
   | none => rfl
   | some eb =>
     simp only
     split
     · rfl
-    · simp [normalizeXmlId, stripOnePrefix, stripOneSuffix, collapseSpaces, StrSpan.span, StrSpan.stop, strLen]
+    · cases parseContentGo true value.start 0 value.text <;> rfl
+
+theorem textE_eq (b : Builder) (t : StrSpan) : b.textE t = b.text t := by
+  unfold Builder.textE Builder.text
+  rw [parseContentE_eq]
+  cases parseContentGo false t.start 0 t.text <;> rfl
 
 def Builder.stepE (b : Builder) : Token → Step Builder
-  | .attribute pfx loc value sp =>
-    if pfx.text == ['x', 'm', 'l', 'n', 's'] then b.prefix loc.text value.text
-    else if loc.text == ['x', 'm', 'l', 'n', 's'] then b.prefix [] value.text
-    else if value.text = [] then b.attributeEmpty pfx loc value.start
-    else b.attribute pfx loc value
+  | .attribute pfx loc value _ =>
+    if pfx.text == ['x', 'm', 'l', 'n', 's'] then b.prefixE loc.text value (Span.fromPrefixName pfx loc)
+    else if pfx.text.isEmpty && loc.text == ['x', 'm', 'l', 'n', 's'] then
+      b.prefixE [] value (Span.fromPrefixName pfx loc)
+    else b.attributeE pfx loc value
+  | .text t => b.textE t
   | .elementEnd .empty sp =>
     match b.openElement with
     | .ok b1 => b1.closeImmediate sp
@@ -52,23 +191,16 @@ def Builder.stepE (b : Builder) : Token → Step Builder
 theorem stepE_eq (b : Builder) (t : Token) : b.stepE t = b.step t := by
   cases t with
   | «attribute» pfx loc value sp =>
-    simp only [Builder.stepE, Builder.step]
-    split
-    · rfl
-    · split
-      · rfl
-      · split
-        · rename_i hv
-          obtain ⟨txt, st⟩ := value
-          simp only at hv
-          subst hv
-          exact (attribute_empty b pfx loc st).symm
-        · rfl
+    simp only [Builder.stepE, Builder.step, prefixE_eq, attributeE_eq]
+  | text t => simp only [Builder.stepE, Builder.step, textE_eq]
   | elementEnd e sp => cases e <;> rfl
   | _ => rfl
 
 def Builder.runE (b : Builder) : List Token → Option Nat → Step Builder
-  | [], none => .ok b
+  | [], none =>
+    match b.eb with
+    | some eb => .err (.unclosedTag eb.span) b.env
+    | none => .ok b
   | [], some pos => .err (.xmlParser pos) b.env
   | t :: ts, lexErr =>
     match b.stepE t with
@@ -77,7 +209,7 @@ def Builder.runE (b : Builder) : List Token → Option Nat → Step Builder
 
 theorem runE_eq (ts : List Token) (lexErr : Option Nat) : ∀ b : Builder, b.runE ts lexErr = b.run ts lexErr := by
   induction ts with
-  | nil => intro b; cases lexErr <;> rfl
+  | nil => intro b; cases lexErr <;> simp only [Builder.runE, Builder.run] <;> cases b.eb <;> rfl
   | cons t ts ih =>
     intro b
     simp only [Builder.runE, Builder.run, stepE_eq]
@@ -155,6 +287,11 @@ end
 
 def BuildResult.uniqueB : BuildResult → Option Bool
   | .ok p => some p.tree.uniqueB
+  | _ => none
+
+/-- The error, if the call failed. -/
+def BuildResult.err? : BuildResult → Option ParseErr
+  | .err e _ => some e
   | _ => none
 
 /-- The span of the error, if the call failed. -/
